@@ -45,6 +45,10 @@ fn specs(tier: Tier) -> Vec<Spec> {
         };
         v.push(Spec { tag: format!("lz10:s{}", start), kind: Kind::Lz10, start, lens: lz10_lens.clone(), depth: d10, first_byte_depth: 1 });
         v.push(Spec { tag: format!("lz11:s{}", start), kind: Kind::Lz11, start, lens: lz11_lens.clone(), depth: d11, first_byte_depth: 1 });
+        if start <= 1 {
+            // very long references (expansion ratios far above what mila's compressor produces)
+            v.push(Spec { tag: format!("lz11long:s{}", start), kind: Kind::Lz11, start, lens: vec![12_288, 20_000, 65_808], depth: 2, first_byte_depth: 0 });
+        }
         if small {
             // deeper sequences over a reduced length alphabet (one length per LZ11 form)
             let d = tier.pick(4, 5);
